@@ -85,6 +85,7 @@ class Interp:
         self._assuming: set = set()
         self.global_effects = []
         self.inlined: set = set()
+        self.fresh_ghosts: list = []
 
     def index_function(self, fnode):
         """syntactic ordinals of loops and comprehensions (source order) - sidecar contracts are keyed by them"""
@@ -618,7 +619,7 @@ class Interp:
             step = z3.Concat(prev, z3.Unit(ev_.t))
             base = z3.Empty(rty.sort())
         body = z3.If(j.t <= 0, base, z3.If(keep, step, prev))
-        core.SPEC_DEFS[name] = core.SpecDef(F, [j.t], body, side)
+        core.SPEC_DEFS[name] = core.SpecDef(F, [j.t], body, side, list(self.fresh_ghosts))
         n_t = as_int(it.length()).t
         result = SV(rty, F(n_t))
         # sidecar lemma: comp(j) == spec(j), proved by induction and then assumed at len
@@ -1011,6 +1012,7 @@ class Interp:
                 env[g] = cand
             else:
                 env[g] = core.fresh(parse_ty(gty), g)
+                self.fresh_ghosts.append(env[g].t)
         if c.traced and self.mode == "code":
             st.env["__trace__"] = st.env.get("__trace__", ()) + ((c.qualname, dict(env)),)
         cst = State(env, st.pc, st.decisions, st.assumed)
